@@ -2,6 +2,7 @@ package gen
 
 import (
 	stdjson "encoding/json"
+	"fmt"
 	"strings"
 )
 
@@ -42,6 +43,68 @@ func (v *JV) Compact() string {
 	var b strings.Builder
 	v.write(&b)
 	return b.String()
+}
+
+// CompactKeys renders the value as compact JSON with every object key spelled by spell (which receives the
+// decoded key and returns the quoted JSON string to write).
+func (v *JV) CompactKeys(spell func(key string) string) string {
+	var b strings.Builder
+	v.writeKeys(&b, spell)
+	return b.String()
+}
+
+// HasKeys reports whether the value holds an object member anywhere.
+func (v *JV) HasKeys() bool {
+	if v.Kind == KObj && len(v.Mem) > 0 {
+		return true
+	}
+	for _, m := range v.Mem {
+		if m.Val.HasKeys() {
+			return true
+		}
+	}
+	for _, a := range v.Arr {
+		if a.HasKeys() {
+			return true
+		}
+	}
+	return false
+}
+
+// EscapedKey spells a key with its first character as a \uXXXX escape (keys of ASCII letters, digits and
+// punctuation; other keys are written plainly).
+func EscapedKey(key string) string {
+	if key == "" || key[0] < 0x20 || key[0] >= 0x7f {
+		return QuoteJSON(key)
+	}
+	rest := QuoteJSON(key[1:])
+	return fmt.Sprintf("\"\\u%04x%s", key[0], rest[1:])
+}
+
+func (v *JV) writeKeys(b *strings.Builder, spell func(string) string) {
+	switch v.Kind {
+	case KObj:
+		b.WriteString("{")
+		for i, m := range v.Mem {
+			if i > 0 {
+				b.WriteString(",")
+			}
+			b.WriteString(spell(m.Key) + ":")
+			m.Val.writeKeys(b, spell)
+		}
+		b.WriteString("}")
+	case KArr:
+		b.WriteString("[")
+		for i, a := range v.Arr {
+			if i > 0 {
+				b.WriteString(",")
+			}
+			a.writeKeys(b, spell)
+		}
+		b.WriteString("]")
+	default:
+		b.WriteString(v.Lit)
+	}
 }
 
 func (v *JV) write(b *strings.Builder) {
